@@ -358,6 +358,92 @@ theorem fs_crash_safe (name rnd : String) (chunks : List Bytes) (d : Dir) (k : N
 example : runOps "e.x.tmp" "e" [("e", [1])] ((expand [[7], [8]] dumpSteps).take 3) = [("e.x.tmp", [7, 8]), ("e", [1])] := by decide
 example : runOps "e.x.tmp" "e" [("e", [1])] (expand [[7], [8]] dumpSteps) = [("e", [7, 8])] := by decide
 
+/-! ### fs_fault_safe: exceptions instead of crashes -/
+
+theorem catches_single (c : String) (e : Exc) : catches [c] e = decide (c ∈ e) := by
+  rw [Bool.eq_iff_iff]; simp [catches]
+
+theorem run_append (tmp name : String) (a b : List FsOp) (d : Dir) :
+    runOps tmp name d (a ++ b) = runOps tmp name (runOps tmp name d a) b := by
+  induction a generalizing d with
+  | nil => rfl
+  | cons x xs ih => simp [runOps, ih]
+
+theorem writes_tmpOnly (cs : List Bytes) : ∀ op ∈ cs.map FsOp.writeTmp, tmpOnly op = true := by
+  intro op hop; simp at hop; obtain ⟨c, _, rfl⟩ := hop; rfl
+
+/-- the state just before the handlers run: temporary created, some chunks written — only the temporary differs -/
+theorem partial_write_preserves (tmp name : String) (cs : List Bytes) (d : Dir) (m : String) (hm : m ≠ tmp) :
+    (runOps tmp name (FsOp.createTmp.apply tmp name d) (cs.map FsOp.writeTmp)).get m = d.get m := by
+  rw [tmpOnly_preserves tmp name _ (writes_tmpOnly cs) _ m hm]
+  exact get_put_ne d tmp m _ hm
+
+def faultExc : Fault → Option Exc
+  | .none => Option.none
+  | .atCreate e | .atWrite _ e | .atReplace e => some e
+
+/-- **fs_fault_safe**: an exception raised by any step of `dump_bytecode` (creating the temporary, any write or the
+    close, `os.replace`) leaves the entry's name with its previous content, every other file untouched and no temporary
+    behind; it leaves the function unchanged, except an `OSError` from `os.replace`, which is swallowed (the entry is
+    then simply not cached).  Without a fault the complete new entry is in place. -/
+theorem fs_fault_safe (name rnd : String) (chunks : List Bytes) (d : Dir) (f : Fault) :
+    let tmp := tmpName name rnd (tmpSuffix dumpSteps)
+    let r := dumpRun tmp name chunks f dumpSteps d
+    d.get tmp = none → (∀ e, faultExc f = some e → "BaseException" ∈ e) →
+    (∀ m, m ≠ tmp → m ≠ name → r.1.get m = d.get m) ∧ r.1.get tmp = none ∧
+    (match f with
+     | .none => r.2 = none ∧ r.1.get name = some chunks.flatten
+     | .atCreate e => r.2 = some e ∧ r.1.get name = d.get name
+     | .atWrite _ e => r.2 = some e ∧ r.1.get name = d.get name
+     | .atReplace e => r.1.get name = d.get name ∧ (if "OSError" ∈ e then r.2 = none else r.2 = some e)) := by
+  intro tmp r hfresh hbase
+  have hne : tmp ≠ name := tmp_ne_name name rnd
+  have hne' : name ≠ tmp := fun h => hne h.symm
+  cases f with
+  | none =>
+    have hr : r = (runOps tmp name d (protocolOps chunks), none) := by
+      show dumpRun tmp name chunks Fault.none dumpSteps d = _
+      have hclose : ∀ d, FsOp.apply tmp name d .closeTmp = d := fun _ => rfl
+      simp [dumpSteps, dumpRun, protocolOps, runOps, run_append, hclose]
+    have hc := protocol_complete tmp name hne chunks d
+    simp only at hc
+    rw [hr]
+    exact ⟨hc.2.2, hc.2.1, rfl, hc.1⟩
+  | atCreate e =>
+    have hr : r = (d, some e) := by
+      show dumpRun tmp name chunks (Fault.atCreate e) dumpSteps d = _
+      simp [dumpSteps, dumpRun]
+    rw [hr]
+    exact ⟨fun _ _ _ => rfl, hfresh, rfl, rfl⟩
+  | atWrite k e =>
+    have hb : "BaseException" ∈ e := hbase e rfl
+    have hr : r = (FsOp.removeTmp.apply tmp name
+        (runOps tmp name (FsOp.createTmp.apply tmp name d) ((chunks.take k).map FsOp.writeTmp)), some e) := by
+      show dumpRun tmp name chunks (Fault.atWrite k e) dumpSteps d = _
+      simp [dumpSteps, dumpRun, handle, catches_single, hb]
+    rw [hr]
+    simp only [FsOp.apply]
+    refine ⟨fun m h1 _ => ?_, get_del_same .., by first | rfl | trivial, ?_⟩
+    · rw [get_del_ne _ _ _ h1]; exact partial_write_preserves tmp name _ d m h1
+    · rw [get_del_ne _ _ _ hne']; exact partial_write_preserves tmp name _ d name hne'
+  | atReplace e =>
+    have hb : "BaseException" ∈ e := hbase e rfl
+    have hd : (dumpRun tmp name chunks (Fault.atReplace e) dumpSteps d).1 = FsOp.removeTmp.apply tmp name
+        (runOps tmp name (FsOp.createTmp.apply tmp name d) (chunks.map FsOp.writeTmp)) ∧
+        (dumpRun tmp name chunks (Fault.atReplace e) dumpSteps d).2 = if "OSError" ∈ e then none else some e := by
+      by_cases ho : "OSError" ∈ e <;> simp [dumpSteps, dumpRun, handle, catches_single, hb, ho]
+    have hr1 : r.1 = _ := hd.1
+    have hr2 : r.2 = _ := hd.2
+    rw [hr1, hr2]
+    simp only [FsOp.apply]
+    refine ⟨fun m h1 _ => ?_, get_del_same .., ?_, ?_⟩
+    · rw [get_del_ne _ _ _ h1]; exact partial_write_preserves tmp name _ d m h1
+    · rw [get_del_ne _ _ _ hne']; exact partial_write_preserves tmp name _ d name hne'
+    · by_cases ho : "OSError" ∈ e <;> simp [ho]
+
+example : dumpRun "e.x.tmp" "e" [[7], [8]] (.atWrite 1 (mroOf "OSError")) dumpSteps [("e", [1])] = ([("e", [1])], some (mroOf "OSError")) := by decide
+example : dumpRun "e.x.tmp" "e" [[7], [8]] (.atReplace (mroOf "FileNotFoundError")) dumpSteps [("e", [1])] = ([("e", [1])], none) := by decide
+
 /-! ### history_fresh -/
 
 section History
